@@ -157,6 +157,41 @@ theorem sortHeap_perm : (sortHeap lt a).Perm (List.range a.length) := by
       (by rw [Nat.shiftRight_eq_div_pow]; omega)
     exact (extract_perm lt a a.length (a.length - 1) _ (by rw [h1.length_eq]; simp; omega)).trans h1
 
+theorem heapLoop_phase1 (n i f : Nat) (idx : List Nat) (h : i ≤ f) :
+    heapLoop lt a n f (i + 1) (n - 1) idx = heapLoop lt a n (f - i) 1 (n - 1) (heapify lt a n i idx) := by
+  induction i generalizing f idx with
+  | zero => rfl
+  | succ i ih =>
+    obtain ⟨f', rfl⟩ : ∃ f', f = f' + 1 := ⟨f - 1, by omega⟩
+    rw [heapLoop, if_pos (by omega)]
+    simp only [Nat.add_sub_cancel, heapify]
+    have e : i + 1 + i = 2 * i + 1 := by omega
+    rw [e, ih f' _ (by omega)]
+    congr 1
+    omega
+
+theorem heapLoop_phase2 (n ir f : Nat) (idx : List Nat) (h1 : 1 ≤ ir) (h : ir ≤ f) :
+    heapLoop lt a n f 1 ir idx = extract lt a n ir idx := by
+  induction ir generalizing f idx with
+  | zero => omega
+  | succ ir ih =>
+    obtain ⟨f', rfl⟩ : ∃ f', f = f' + 1 := ⟨f - 1, by omega⟩
+    rw [heapLoop, if_neg (by omega)]
+    simp only [Nat.add_sub_cancel, extract, Nat.sub_self, Nat.add_zero]
+    by_cases h0 : ir = 0
+    · rw [if_pos h0, if_pos h0]
+    · rw [if_neg h0, if_neg h0, ih f' _ (by omega) (by omega)]
+
+/-- the literal single loop computes exactly the two-phase function the theorems are about -/
+theorem sortHeapLoop_eq : sortHeapLoop lt a = sortHeap lt a := by
+  unfold sortHeapLoop sortHeap
+  simp only
+  split_ifs with h
+  · rfl
+  · rw [heapLoop_phase1 lt a a.length (a.length >>> 1) _ _ (by omega),
+      heapLoop_phase2 lt a a.length (a.length - 1) _ _ (by omega) (by omega)]
+
+
 end perm
 
 
